@@ -65,6 +65,8 @@ class Inst:
             return self.sched_S.copy()
         if s == "K":
             return np.full(len(self.sched_S), float(self.pf))
+        if s == "O":
+            return np.array([float(self.sched_S[0])])
         raise KeyError(s)
 
     def describe(self) -> dict:
@@ -76,7 +78,7 @@ def default_inst(kind: str, variant: int = 0, rng: np.random.Generator | None = 
     if variant == 0:
         a = np.linspace(0, 1.0, 6) ** 2
         b = np.linspace(0, 1.0, 6)   # same length, same first and last time as A, different interior
-        c = np.linspace(0, 1.2, 9) ** 2
+        c = np.concatenate([a[:3], a[2] + np.linspace(0.1, 1.2, 6) ** 2])   # other length; shares its first 3 times with A
         return Inst(kind, 8, 1000.0, 8000.0, {"A": a, "B": b, "C": c}, np.linspace(4000.0, 1200.0, 6))
     rng = rng or np.random.default_rng(variant)
     n1 = int(rng.integers(3, 14))
@@ -116,7 +118,13 @@ def default_inst(kind: str, variant: int = 0, rng: np.random.Generator | None = 
         gb = np.concatenate([[ga[0]], ga[0] + (ga[-1] - ga[0]) * w, [ga[-1]]])
         if not np.all(np.diff(gb) > 0) or np.array_equal(ga, gb):
             gb = grid(n1)
-    return Inst(kind, int(rng.integers(3, 25)), pf, pi, {"A": ga, "B": gb, "C": grid(n2)}, s,
+    gc = grid(n2)
+    if rng.random() < 0.5 and ga.dtype == gc.dtype and n1 >= 4:
+        # C repeats A's first times and then goes its own way (a resumed / extended horizon)
+        k = int(rng.integers(2, n1))
+        tail = ga[k - 1] + np.cumsum(np.abs(np.diff(gc))[: n2 - k] + (1 if ga.dtype.kind == "i" else 1e-6))
+        gc = np.concatenate([ga[:k], tail.astype(ga.dtype)])
+    return Inst(kind, int(rng.integers(3, 25)), pf, pi, {"A": ga, "B": gb, "C": gc}, s,
                 table=str(rng.choice(["pvt_gas", "haynesville"])))
 
 
